@@ -274,7 +274,7 @@ def shard(tier, i, n, seed):
         idx += 1
         if (idx + seed) % n != i:
             continue
-        guarded(R, lambda: check(idx, cfg, R), {'cfg': [str(x) for x in cfg[:4]] + list(cfg[6:])}, {'codec:' + cfg[7]}, idx)
+        guarded(R, lambda: check(idx, cfg, R), {'cfg': [str(x) for x in cfg[:4]] + list(cfg[6:])}, {'codec:' + cfg[7]}, idx, cpu_limit=180)
     return R
 
 
